@@ -60,10 +60,17 @@ vars == <<cfg, pc, lastEventID, isRetry, interval, numRetries, attempts, cur, cu
 
 R(k) == [kind |-> k, err |-> ""]
 
+\* mergeDefaults: an InitialInterval <= 0 becomes 500 ms, a Multiplier < 1 becomes 1.5 (a Jitter of -1 is kept, any other
+\* value outside (0, 1) becomes 0.5: the jitter classes of Cfgs are "none" / "default" / "quarter")
+DefaultInitial == 500000000
+EffInitial == IF cfg.initial <= 0 THEN DefaultInitial ELSE cfg.initial
+EffMulNum  == IF cfg.mulNum < cfg.mulDen THEN 3 ELSE cfg.mulNum
+EffMulDen  == IF cfg.mulNum < cfg.mulDen THEN 2 ELSE cfg.mulDen
+
 Init ==
     /\ cfg \in Cfgs /\ pc = "reset"
     /\ lastEventID = <<>> /\ isRetry = FALSE
-    /\ interval = cfg.initial /\ numRetries = 0
+    /\ interval = (IF cfg.initial <= 0 THEN DefaultInitial ELSE cfg.initial) /\ numRetries = 0
     /\ attempts = 0 /\ cur = [body |-> <<>>, end |-> "clean", ctxdone |-> FALSE] /\ curErr = "" /\ result = R("")
     /\ everConnected = FALSE
     /\ reqs = <<>> /\ events = <<>> /\ waits = <<>> /\ hist = <<>>
@@ -126,7 +133,7 @@ Read ==
            r  == IF st.retries = <<>> THEN 0 ELSE RetryUnits(st.retries[Len(st.retries)])
        IN /\ events' = events \o st.out
           /\ lastEventID' = IF st.out = <<>> THEN lastEventID ELSE st.out[Len(st.out)].id
-          /\ interval' = IF r > 0 THEN r ELSE cfg.initial
+          /\ interval' = IF r > 0 THEN r ELSE EffInitial
           /\ numRetries' = 0
           /\ IF st.status = "cancelled" THEN Done(R("ctx")) /\ UNCHANGED curErr
              ELSE /\ curErr' = (CASE st.status = "eof" -> "eof"
@@ -138,8 +145,9 @@ Read ==
                                         (cur.end = "cancel_cb" /\ Interpret(cur.body, "clean", "conn", lastEventID).out # <<>>))]
     /\ UNCHANGED <<cfg, isRetry, attempts, reqs, waits, hist>>
 
-Grow(i) == IF cfg.maxInterval > 0 /\ i * cfg.mulNum >= cfg.maxInterval * cfg.mulDen THEN cfg.maxInterval
-           ELSE (i * cfg.mulNum) \div cfg.mulDen
+Grow(i) == IF cfg.maxInterval > 0 /\ i * EffMulNum >= cfg.maxInterval * EffMulDen THEN cfg.maxInterval
+           ELSE IF i >= (HUGE \div EffMulNum) * EffMulDen THEN HUGE    \* beyond what TLC's integers (and the driver's patience) hold
+           ELSE (i \div EffMulDen) * EffMulNum + ((i % EffMulDen) * EffMulNum) \div EffMulDen   \* = floor(i * num / den), without overflow
 
 \* backoff.next(): limit check, then the wait is the current interval and the interval grows
 BackoffNext ==
